@@ -45,6 +45,32 @@ End MemoTable.
 
 Definition always {V : Type} (_ : V) : bool := true.
 
+(** The same table with a side condition on the STORE step (invert/mod.rs:53-63 [cacheable],
+    un.rs:62-66, under.rs, since 868269f): a result whose computation read something the key
+    does not feed (there: the length of the spans table, un.rs:598-601) is returned but not
+    put into the table. *)
+Section MemoTableStore.
+  Context {X K V : Type}.
+  Variable keqb : K -> K -> bool.
+  Variable usable : V -> bool.
+  Variable store : X -> bool.
+  Variable key : X -> K.
+  Variable f : X -> V.
+
+  Fixpoint run_memo_store_from (t : list (K * V)) (history : list X) : list V :=
+    match history with
+    | [] => []
+    | x :: h =>
+        let miss := f x :: run_memo_store_from (if store x then (key x, f x) :: t else t) h in
+        match lookup keqb (key x) t with
+        | Some v => if usable v then v :: run_memo_store_from t h else miss
+        | None => miss
+        end
+    end.
+
+  Definition run_memo_store (history : list X) : list V := run_memo_store_from [] history.
+End MemoTableStore.
+
 (* ------------------------------------------------------------------ part 2 *)
 
 (** Model of [Node] (tree.rs:26-98).  Primitives, values, signatures, function ids are
@@ -357,6 +383,14 @@ Definition inv_input_l : Type := inv_input * N.
 Definition inv_key_l (x : inv_input_l) : list node * (N * bool) := inv_key (fst x).
 Definition inv_deps_l (x : inv_input_l) : (list node * (N * bool)) * N := (inv_deps_named (fst x), snd x).
 Definition inv_key_l_fix (x : inv_input_l) : (list node * (N * bool)) * N := (inv_key (fst x), snd x).
+(** since 868269f: whether the inversion takes that span is decided by what it inverts ([u] of the
+    keyed dependencies: does the "match a constant exactly" pattern fire); if it does the
+    result depends on the table length and is NOT stored *)
+Definition inv_f_l {V : Type} (u : list node * (N * bool) -> bool) (g : list node * (N * bool) -> option N -> V)
+  (x : inv_input_l) : V :=
+  g (inv_deps_named (fst x)) (if u (inv_deps_named (fst x)) then Some (snd x) else None).
+Definition inv_store_l (u : list node * (N * bool) -> bool) (x : inv_input_l) : bool :=
+  negb (u (inv_deps_named (fst x))).
 (** the key between 25aa9f6 and 7da4086 (no names) *)
 Definition inv_key_pre_names (x : inv_input) : list node * (N * bool) := (map deep_pre (fst x), snd x).
 (** a key that hashes the callee's body instead of its index *)
@@ -394,6 +428,23 @@ Definition pre_input : Type := node * list binding.
 Definition pre_key (x : pre_input) : node := erase (fst x).
 Definition pre_deps (x : pre_input) : node * list (option (N * bool)) :=
   (content (fst x), look (snd x) (globals (fst x))).
+
+(** ... and, in Lsp pre-evaluation mode only, the system backend (and the outside world it
+    shows): [matches_nodes] then admits impure system functions (pre_eval.rs:73), which run on
+    the compiler's backend (pre_eval.rs:168-171, since 2bf92f0; on the native one before);
+    the key is still the node only.  [impure p]: primitive [p] reads the backend. *)
+Fixpoint reads_backend (impure : N -> bool) (x : node) : bool :=
+  match x with
+  | NPrim p _ => impure p
+  | NMod p args _ => impure p || existsb (fun a => reads_backend impure (fst a)) args
+  | NCall _ _ _ _ _ b _ => reads_backend impure b
+  | NRun ns => existsb (reads_backend impure) ns
+  | _ => false
+  end.
+Definition pre_input_b : Type := pre_input * N.        (* with the backend / world the compiler was given *)
+Definition pre_key_b (x : pre_input_b) : node := pre_key (fst x).
+Definition pre_deps_b (impure : N -> bool) (x : pre_input_b) : (node * list (option (N * bool))) * option N :=
+  (pre_deps (fst x), if reads_backend impure (fst (fst x)) then Some (snd x) else None).
 
 (** 7. fast row functions (zip.rs:133-158): key (since 25aa9f6) = [hash_deep(None)] of the
     node; the cached value is a closure that bakes the span indices of the node
